@@ -25,7 +25,11 @@ NObj == TLCEval(Len(OSeq))
 IntH == HCls("int")  StrH == HCls("str")  NoneH == HCls("NoneType")
 VAtoms == { VIs("truthy"), VIs("isstr"), VIs("sized1"),
             VAttr("x", VEq(i1)), VAttr("x", VIs("truthy")), VAttr("y", VAttr("x", VEq(i1))), VAttr("x", VInst("str")),
-            VEq(i1), VEq(sa), VEq(none), VInst("int"), VInst("A"), VSub("A"), VSub("int") }
+            VEq(i1), VEq(sa), VEq(none), VInst("int"), VInst("A"), VSub("A"), VSub("int"),
+            \* the same attribute name nested, followed by a sibling operand on the outer attribute value
+            VAttr("y", VAnd(VAttr("y", VInst("str")), VAttr("x", VEq(i1)))),
+            VAttr("y", VOr(VAttr("y", VEq(i1)), VAttr("x", VEq(i1)))),
+            VAttr("y", VAnd(VNot(VAttr("y", VAttr("y", VIs("truthy")))), VAttr("x", VIs("truthy")))) }
 VCore == { VIs("truthy"), VAttr("x", VEq(i1)), VEq(i1), VInst("A"), VSub("A"), VAttr("y", VAttr("x", VEq(i1))) }
 VExpr1 == VAtoms \cup { VNot(v) : v \in VAtoms }
 VExpr2 == { VAnd(v, w) : v \in VCore, w \in VExpr1 } \cup { VOr(v, w) : v \in VCore, w \in VExpr1 }
